@@ -62,11 +62,18 @@ Proof.
     intros t k j Ht; cbv beta iota; unfold truthy;
     assert (Hp : 2 ^ Z.of_nat k + 2 ^ Z.of_nat k = 2 ^ Z.of_nat (S k))
       by (rewrite Nat2Z.inj_succ, Z.pow_succ_r by lia; lia);
+    (* the place value doubled as pv + pv, pv * 2, 2 * pv or pv << 1 *)
+    assert (Hs : Z.shiftl (2 ^ Z.of_nat k) 1 = 2 ^ Z.of_nat (S k))
+      by (rewrite Z.shiftl_mul_pow2 by lia; rewrite Nat2Z.inj_succ, Z.pow_succ_r by lia; lia);
+    assert (Hm : 2 ^ Z.of_nat k * 2 = 2 ^ Z.of_nat (S k))
+      by (rewrite Nat2Z.inj_succ, Z.pow_succ_r by lia; lia);
+    assert (Hm' : 2 * 2 ^ Z.of_nat k = 2 ^ Z.of_nat (S k))
+      by (rewrite Nat2Z.inj_succ, Z.pow_succ_r by lia; lia);
     assert (Hl : Z.lor (Z.of_N t) (2 ^ Z.of_nat k) = Z.of_N t + 2 ^ Z.of_nat k)
       by (apply lor_pow2; [|lia]; split; [lia|];
           change 2 with (Z.of_N 2); rewrite <- nat_N_Z, <- N2Z.inj_pow; lia);
     repeat match goal with |- context [if ?c then _ else _] => destruct c eqn:? end;
-    rewrite ?Hl, ?Hp, ?N2Z.inj_add, ?N.shiftl_1_l, ?N2Z.inj_pow, ?nat_N_Z; first [reflexivity | congruence | (f_equal; lia)] ].
+    rewrite ?Hl, ?Hp, ?Hs, ?Hm, ?Hm', ?N2Z.inj_add, ?N.shiftl_1_l, ?N2Z.inj_pow, ?nat_N_Z; first [reflexivity | congruence | (f_equal; lia)] ].
 Qed.
 
 Lemma bind_ok_id : forall {A} (m : res A), bind m (fun r => Ok r) = m.
